@@ -27,6 +27,16 @@ CLAIMED = {
             "Seeded swarm over histories: transient finite RHS glitches force rejections and post-rejection steps, ModifiedSolution at chosen callbacks (BDF restart, FSAL refresh), max_step/min_step clamps, knobs, budget stops, terminal events, persistent NaN faults, both directions, the zero-length run. Low-level: the interpolant handed to every callback equals the state left behind by the previous callback at xold and y at x (tau_I), with matching bounds. High-level: span starts at x0, every reported time is answerable by sol and reproduces the stored sample, left/right limits agree at every interior step boundary, sol/sol_many agree and succeed on points of the span incl. both ends, OutOfRange clearly outside, NotEnabled without dense_output.",
             "Trusted: tau_I tolerance (DESIGN §5); samples emitted through the handler's 1e-12 slack by extrapolating a step over a non-negligible fraction of its length are excluded (counted).",
             "DESIGN.md §5 C06"),
+    "C08": ("exploration",
+            "deterministic simulation: simulator-owned event functions with roots placed against the pilot step grid; every delivered event checked over the recorded history (bracketing, state == dense solution, sign change in the configured direction, order, shapes)",
+            "Seeded swarm (1-4 event functions: time, state threshold, periodic, two-root product; roots mid-step, 1e-9 from a boundary, exactly on a boundary; several functions per step; scales 1e-15..1e15; all direction filters; both directions; all methods; glitch-forced rejections) plus a catalogue placing a single root in every step. Every reported event: lies between two consecutive accepted endpoints and inside the dense span; y_e == sol(t_e) within tau_I+4e-12F; g on the dense solution changes sign in the configured direction (in integration order) across [t_e-d, t_e+d], d=4e-12+8eps|t_e| (values below g's own rounding noise count as zero); per-function order; shapes.",
+            "Preconditions stated in evidence: the direction clause is skipped when the step (or the accuracy window) holds more than one root of the simulator's own event function (which root a root finder returns is unspecified); overflowing fixed-step runs are blocked. The fault axis is thin here: the search is mostly over root timing.",
+            "DESIGN.md §5 C08/C09"),
+    "C09": ("exploration",
+            "deterministic simulation: exactly-once / no-loss delivery of sign changes over the recorded history (event functions recomputed at the accepted endpoints), roots placed against the pilot step grid",
+            "Catalogue: a single-root event s*(t-c) with the root in EVERY accepted step at 5 fractions (incl. 1e-9 from either boundary) x 5 scale/direction combinations (1e-13..1e6), all methods, both directions; plus the seeded swarm of C08. Per function and per pair of consecutive accepted endpoints: strict sign change in the configured direction => an event in that closed step; counts A <= #events <= A+Z (Z = steps with an exactly-zero endpoint, exempt); every event lies in a change/exempt step; single-root clause: exactly one event within 4e-12+8eps|c| of c.",
+            "Trusted: event functions are pure, so the simulator's recomputation at the reported endpoints is what the handler saw; precondition naccpt == len(t)-1.",
+            "DESIGN.md §5 C08/C09"),
     "C10": ("fault_enumeration",
             "deterministic simulation: terminal event = cancellation at a scheduler-placed instant (every step x 7 fractions x occurrence 1/2, + seeded swarm); oracle = bit-identical prefix of the un-cancelled twin run",
             "The terminal root is placed in EVERY accepted step of every catalogue base at 7 fractions (incl. 1e-9 from either boundary), as first and as second occurrence, with earlier/later non-terminal roots in the same step, with/without t_eval and dense output, both directions; plus a seeded swarm (1-4 event functions of four kinds, direction filters, scales, counts 1-3, roots on boundaries). Each case runs the terminal run and its twin with the flags cleared: status, final sample == event point bitwise, earlier samples and per-function events == the twin's prefix bitwise, nothing beyond t*, dense span covers t*.",
